@@ -268,6 +268,14 @@ func main() {
 	defer c.Finish()
 	c.Res.Rule = "each case = (operation, root, path arguments spelled over the segment alphabet {\"\", \".\", \"..\", a, b.c, \"d e\", ..x}); exhaustive up to the stated length for the Go oracle, sampled for the in-Coq comparison; distinct = distinct (op, root, args); non-trivial = the spelling contains at least one of \"\", \".\", \"..\" or is absolute"
 	if c.Replay != "" {
+		var irp impReplay
+		if err := common.LoadReplay(c.Replay, &irp); err == nil && irp.Kind != "" {
+			o := observeImport(irp)
+			judgeImport(c, irp, o)
+			c.Count(fmt.Sprint(irp), true)
+			fmt.Printf("replay %v: model=%v apps=%v inner=%v failures=%d\n", irp, o.ok, o.apps, o.inner, len(c.Res.Failures))
+			return
+		}
 		var rp replay
 		if err := common.LoadReplay(c.Replay, &rp); err != nil {
 			fmt.Fprintln(os.Stderr, err)
@@ -381,4 +389,6 @@ Notation E := Empty. Notation D := Dot. Notation U := DotDot. Definition n (p:po
 		one(opi, root, args, true)
 	}
 	cs.Close()
+	// 3. end to end: import statements and the module argument through loader.LoadSyslModule
+	runImports(c)
 }
